@@ -94,6 +94,23 @@ static void node_gc(void* gc_data, hazard_node_t* h) {
 #endif
 }
 
+// one retired node in eight is a "parent": its reclamation callback retires a further node on the same record (the callback runs on
+// the thread that retired the parent, inside that record's scan). The child is a retired node like any other.
+static _Atomic long children_retired;
+static vp_counter_t* c_children;
+static void node_gc_parent(void* gc_data, hazard_node_t* h) {
+  hazard_pointer_thread_record_t* r = (hazard_pointer_thread_record_t*)gc_data;
+  node_gc(NULL, h);
+  hnode_t* child = node_new();
+  child->hazard.gc_data = NULL;
+  child->hazard.gc_function = &node_gc;
+  atomic_store(&child->retired_by, 1000);
+  atomic_fetch_add(&retired_total, 1);
+  atomic_fetch_add(&children_retired, 1);
+  vp_add(c_children, 1);
+  hazard_pointer_free(r, &child->hazard);
+}
+
 static hazard_pointer_thread_record_t* my_rec(ds_worker_t* w) {
   if (!recs[w->id]) {
     recs[w->id] = hazard_pointer_thread_record_create_and_push(&hp_head, (size_t)K);
@@ -106,6 +123,10 @@ static void retire(ds_worker_t* w, hazard_pointer_thread_record_t* r, hnode_t* o
   atomic_store(&old->retired_by, w->id + 1);
   old->hazard.gc_data = NULL;
   old->hazard.gc_function = &node_gc;
+  if ((old->serial & 7) == 3) {
+    old->hazard.gc_data = r;
+    old->hazard.gc_function = &node_gc_parent;
+  }
   atomic_fetch_add(&retired_total, 1);
   vp_add(c_retired, 1);
   hazard_pointer_free(r, &old->hazard);
@@ -113,7 +134,9 @@ static void retire(ds_worker_t* w, hazard_pointer_thread_record_t* r, hnode_t* o
   const size_t thr = atomic_load(&r->retire_threshold);
   vp_add(c_bounded_checks, 1);
   vp_max(c_maxgarbage, (long)r->retired_count);
-  if (r->retired_count >= thr)
+  // (a scan that keeps up to thr/2 protected nodes and whose callbacks retire children can end just above the threshold; the next
+  // retirement scans again. Twice the threshold is never reached by a correct implementation.)
+  if (r->retired_count >= 2 * thr)
     vp_violation("C14", "hazard:garbage-unbounded", "round %d: record of thread %d holds %zu retired nodes, threshold is %zu", cur_round,
                  w->id, r->retired_count, thr);
 }
@@ -215,6 +238,7 @@ void ds_sub_hazard(void) {
   c_records = vp_counter("hp_records_registered");
   c_bounded_checks = vp_counter("hp_bounded_garbage_checks");
   c_self_protect = vp_counter("hp_retired_while_protected_by_the_retiring_thread");
+  c_children = vp_counter("hp_retired_from_inside_a_reclamation_callback");
 #ifndef VP_ASAN
   pthread_spin_init(&arena_lock, 0);
   arena_n = 4096;
@@ -316,6 +340,18 @@ void ds_sub_hazard(void) {
         vp_violation("C14", "hazard:not-reclaimed-after-threshold", "round %d: thread %d had %zu unprotected retired nodes but only %ld reclamations happened during %zu further retirements",
                      cur_round, wi, npend, after - before, thr);
       free(pend);
+    }
+    // conservation at quiescence: every node ever retired is either reclaimed or still on some record's retired list
+    {
+      long pending = 0;
+      for (c = atomic_load(&hp_head); c; c = c->next) {
+        hazard_node_t* p;
+        for (p = c->retired_list; p; p = p->next) ++pending;
+      }
+      const long lost = atomic_load(&retired_total) - atomic_load(&reclaimed_total) - pending;
+      if (lost != 0)
+        vp_violation("C14", "hazard:retired-node-lost", "round %d: %ld nodes retired, %ld reclaimed, %ld still on the retired lists: %ld retired node(s) are neither reclaimed nor pending (%ld were retired from inside reclamation callbacks)",
+                     cur_round, atomic_load(&retired_total), atomic_load(&reclaimed_total), pending, lost, atomic_load(&children_retired));
     }
     vp_sig(vp_mix(((uint64_t)n_writers << 16) | ((uint64_t)late_joiners << 8) | (uint64_t)K, (uint64_t)nrec));
     vp_progress();
